@@ -451,7 +451,9 @@ def sc_ping_outstanding_then_close(c):
     """an auto-ping is outstanding when the application starts the closing handshake; the peer answers the ping in time (pong, or a data frame when
     any traffic counts) and sends its close reply only after the ping deadline, well within the close timeout: it met every deadline"""
     I, T = c["ping_iv"], max(2, c["ping_to"])
-    c = dict(c, ping_to=T, close_to=T + 6, drop_to=0)
+    silent = c["p1"] == "never"
+    # (silent variant: the peer answers neither the ping nor the close; the closing-handshake timeout is off or later than the ping deadline)
+    c = dict(c, ping_to=T, close_to=(0 if (silent and c["frac"] < 0.75) else T + 6), drop_to=0)
     w = World(c)
     w.handshake()
     w.advance_to(w.t_open + I + 1e-3)
@@ -463,6 +465,12 @@ def sc_ping_outstanding_then_close(c):
     w.d.call(w.proto.sendClose, 1000, "bye")
     w.d.settle()
     w.collect()
+    if silent:
+        # starting the closing handshake does not release the peer from answering the ping that is already out: dropped by that ping's deadline
+        w.advance_to(tp + T + 1.5)
+        expect_dropped(w, tp, T, "ping timeout", "ping-then-close")
+        w.finish()
+        return "ping-then-close/silent-peer/close_to=%s" % ("off" if c["close_to"] == 0 else "later")
     w.advance_to(tp + 0.2 + max(0.0, T - 1.0 - EPS - 0.2) * c["frac"])
     if c["answer"] == "data" and c["restart"]:
         w.feed(w.frame(1, b"traffic while closing"))
